@@ -21,7 +21,7 @@ inductive BEv where
   | addBr (id : Nat)                                                -- AddLineBreak
   | addTable (id : Nat)                                             -- AddDataTable
   | addTag (name : String) (start : Bool)                           -- AddTag
-  | addEmbed (kind : Kind) (id : Nat)                               -- AddEmbed (image/figure/video/embed)
+  | addEmbed (kind : MKind) (id : Nat)                              -- AddEmbed (image/figure/video/embed)
 deriving Repr, Inhabited
 
 /-- `TextBuilder` -/
@@ -87,7 +87,7 @@ inductive DocEl where
   | text (t : TextEl)
   | tag (name : String) (start : Bool)
   | table (id : Nat)
-  | media (kind : Kind) (id : Nat)
+  | media (kind : MKind) (id : Nat)
 deriving Repr, Inhabited
 
 /-- `WebDocumentBuilder` -/
